@@ -6,6 +6,7 @@
    reserved_free = no component is the reserved name PAR or PAR followed by a line feed. *)
 From Coq Require Import String.
 From BFG Require Import Base.Chars Path.Within Path.WithinProofs.
+From BFG Require Import Make.MakeWrite Make.MakeNamesProofs Ninja.NinjaWrite Path.EmitGlue.
 Local Open Scope list_scope.
 
 (* within_directory is injective (current regular expression) *)
@@ -81,6 +82,72 @@ Theorem C05_distinct_outputs_accepted : forall (T : Type) (esc : T -> str) mk st
 Proof. exact @emit_distinct_accepted. Qed.
 Print Assumptions C05_distinct_outputs_accepted.
 
+(* ---- glue C05 <- C04: the injectivity hypothesis discharged for the keys the two emitters really use ----
+   Makefile.rule keys a target by _target_str = Writer.write(name, Syntax.target), NinjaFile.build keys an output
+   by _output_str = Writer.write(name, Syntax.output).  On a plain string these are the C04 writers
+   (Make/MakeWrite.v escape_str, Ninja/NinjaWrite.v nj_escape_str); a line feed raises before any key exists. *)
+Theorem C05_make_target_key : forall uw us s m,
+  has_nl s = false ->
+  escape_str us s SynTarget = Some (make_target_esc us s) /\
+  write uw us (MStr s) SynTarget m = Some (make_target_esc us s, false) /\
+  make_target_esc us s = bs_esc_top (target_special us) (dollar_esc s).
+Proof.
+  intros uw us s m H. split; [exact (make_target_esc_is_escape_str us s H)|].
+  split; [exact (make_target_esc_is_write uw us s m H)|reflexivity].
+Qed.
+Print Assumptions C05_make_target_key.
+
+Theorem C05_ninja_output_key : forall uw s,
+  has_nl s = false ->
+  nj_escape_str s NOutput = Some (nj_path_esc s) /\ nwrite uw (NStr s) NOutput = Some (nj_path_esc s, false).
+Proof. intros uw s H. split; [exact (nj_path_esc_is_escape_str s H)|exact (nj_path_esc_is_write uw s H)]. Qed.
+Print Assumptions C05_ninja_output_key.
+
+(* Make: the target key is injective on names that do not begin with a backslash (C04_dollar_injective composed with
+   C04_escape_injective; the class of escaped characters never contains the backslash), for every classification
+   of the non-ASCII blanks *)
+Theorem C05_make_target_key_injective : forall us a b,
+  hd_not_bs a = true -> hd_not_bs b = true -> make_target_esc us a = make_target_esc us b -> a = b.
+Proof. exact make_target_esc_injective. Qed.
+Print Assumptions C05_make_target_key_injective.
+
+(* Ninja: the output key is injective on every string *)
+Theorem C05_ninja_output_key_injective : forall a b, nj_path_esc a = nj_path_esc b -> a = b.
+Proof. exact nj_path_esc_injective. Qed.
+Print Assumptions C05_ninja_output_key_injective.
+
+(* no false rejection, with no hypothesis about the escaping left.  Make: the names must not begin with a backslash
+   (Path objects never contain one: the constructor rewrites it to a separator) *)
+Theorem C05_distinct_outputs_accepted_make : forall us (steps : list (list str)),
+  Forall (fun n => hd_not_bs n = true) (concat steps) ->
+  NoDup (concat steps) -> Forall (fun s => s <> []) steps ->
+  emit_paths (make_target_esc us) true steps = EOk (map (map (make_target_esc us)) steps).
+Proof. exact make_distinct_accepted. Qed.
+Print Assumptions C05_distinct_outputs_accepted_make.
+
+(* Ninja: every list of steps with pairwise distinct outputs (a build statement may have none) *)
+Theorem C05_distinct_outputs_accepted_ninja : forall (steps : list (list str)),
+  NoDup (concat steps) -> emit_paths nj_path_esc false steps = EOk (map (map nj_path_esc) steps).
+Proof. exact ninja_distinct_accepted. Qed.
+Print Assumptions C05_distinct_outputs_accepted_ninja.
+
+(* the Make guard is needed: the alternative ^~ of the escaping expression writes a leading tilde as
+   backslash-tilde, and a name that itself begins with backslash-tilde is written the same way (its backslash is not
+   followed by an escaped character, so it stays single): the two distinct plain-string targets  ~x  and  \~x  are
+   rejected as one (C04_escape_collision_with_backslash; reachable with str targets only, not with Path objects) *)
+Theorem C05_distinct_outputs_make_backslash_refuted : exists steps k,
+  NoDup (concat steps) /\ Forall (fun s => s <> []) steps /\
+  ~ Forall (fun n => hd_not_bs n = true) (concat steps) /\
+  emit_paths (make_target_esc (fun _ => false)) true steps = EDup k.
+Proof.
+  exists [[STR "~x"]; [c_bs :: STR "~x"]], (c_bs :: STR "~x").
+  split; [repeat constructor; cbn; intuition discriminate|].
+  split; [repeat constructor; discriminate|].
+  split; [|vm_compute; reflexivity].
+  intros H. inversion H as [|? ? _ H']. inversion H' as [|? ? Hx _]. discriminate Hx.
+Qed.
+Print Assumptions C05_distinct_outputs_make_backslash_refuted.
+
 (* implicitly named objects of non-absolute sources: build root, normalised, no parent reference *)
 Theorem C05_outputs_in_builddir : forall d s o,
   (match d with Some d => proot d = RBuild /\ wf_comps (pcomps d) | None => True end) ->
@@ -152,3 +219,23 @@ Proof. split; vm_compute; reflexivity. Qed.
 Example ex_absolute_escapes :
   object_of true (Some (P RBuild [STR "prog.int"])) (P RAbs [STR "ext"; STR "abs.c"]) = Ok (P RAbs [STR "ext"; STR "abs.o"]).
 Proof. vm_compute. reflexivity. Qed.
+
+(* the glue theorems on names full of escaped characters (the names of the W:emit stage): guards hold, both emitters
+   accept, and the keys differ from the names *)
+Definition ex_steps : list (list str) :=
+  [[STR "a b.o"; STR "x$y"]; [STR "ab:c"]; [STR "a#b"; STR "a%b"; STR "~x"]; [STR "p.int/a.o"]].
+Example ex_emit_glue :
+  Forall (fun n => hd_not_bs n = true) (concat ex_steps) /\ NoDup (concat ex_steps) /\
+  Forall (fun s => s <> []) ex_steps /\
+  emit_paths (make_target_esc (fun _ => false)) true ex_steps =
+    EOk [[STR "a\ b.o"; STR "x$$y"]; [STR "ab\:c"]; [STR "a\#b"; STR "a\%b"; STR "\~x"]; [STR "p.int/a.o"]] /\
+  emit_paths nj_path_esc false ex_steps =
+    EOk [[STR "a$ b.o"; STR "x$$y"]; [STR "ab$:c"]; [STR "a#b"; STR "a%b"; STR "~x"]; [STR "p.int/a.o"]].
+Proof.
+  assert (G : Forall (fun n => hd_not_bs n = true) (concat ex_steps)) by (repeat constructor).
+  assert (N : NoDup (concat ex_steps)) by (repeat constructor; cbn; intuition discriminate).
+  assert (E : Forall (fun s => s <> []) ex_steps) by (repeat constructor; discriminate).
+  split; [exact G|]. split; [exact N|]. split; [exact E|]. split.
+  - rewrite (C05_distinct_outputs_accepted_make _ _ G N E). vm_compute. reflexivity.
+  - rewrite (C05_distinct_outputs_accepted_ninja _ N). vm_compute. reflexivity.
+Qed.
